@@ -3,22 +3,24 @@
 #include <symengine/finitediff.h>
 using namespace vs;
 
-extern "C" void harness_c38()
+static void c38_body(long cden_default)
 {
     unsigned n = (unsigned)verif_param("npoints", 3), maxd = (unsigned)verif_param("maxd", 2);
     // grid: distinct points from {-2,...,2} (enumerated), optionally halved (half-integer grids)
     long g[5];
     bool halves = verif_param("halves", 0) && verif_choice("halves", 2);
+    bool sorted = verif_param("sorted", 0); // only increasing grids (fewer enumerated grids)
     vec_basic grid;
     for (unsigned j = 0; j < n; j++) {
         g[j] = (long)verif_choice(("g" + std::to_string(j)).c_str(), 5) - 2;
         for (unsigned i = 0; i < j; i++)
-            verif_assume(g[i] != g[j]);
+            verif_assume(sorted ? g[i] < g[j] : g[i] != g[j]);
         grid.push_back(halves ? (RCP<const Basic>)Rational::from_two_ints(g[j], 2) : (RCP<const Basic>)integer(g[j]));
     }
     // centre and test polynomial are solver variables
     long X = verif_param("X", 1000);
-    RCP<const Integer> x0 = sym_integer("x0", -X, X);
+    long cden = verif_param("cden", cden_default); // > 1: rational centre n/d, 1 <= d <= cden (not pre-normalised)
+    RCP<const Number> x0 = cden > 1 ? sym_rational("x0", X, cden) : (RCP<const Number>)sym_integer("x0", -X, X);
     long B = verif_param("B", 5);
     std::vector<RCP<const Integer>> a;
     for (unsigned i = 0; i < n; i++)
@@ -39,16 +41,28 @@ extern "C" void harness_c38()
             acc = acc->add(*rcp_static_cast<const Number>(w[k * n + j])->mul(*pv));
         }
         // k-th derivative of p at x0: sum_i a_i * i!/(i-k)! * x0^(i-k)
-        integer_class d(0);
+        RCP<const Number> d = zero;
         for (unsigned i = k; i < n; i++) {
-            integer_class c = a[i]->as_integer_class();
+            integer_class f = a[i]->as_integer_class();
             for (unsigned t = 0; t < k; t++)
-                c *= integer_class((long)(i - t));
+                f *= integer_class((long)(i - t));
+            RCP<const Number> c = integer(f);
             for (unsigned t = 0; t < i - k; t++)
-                c *= x0->as_integer_class();
-            d += c;
+                c = c->mul(*x0);
+            d = d->add(*c);
         }
-        verif_assert(eq(*acc, *integer(d)), "weights of order k applied to p(grid) give the k-th derivative of p at the centre");
+        verif_assert(eq(*acc, *d), "weights of order k applied to p(grid) give the k-th derivative of p at the centre");
     }
+}
+
+extern "C" void harness_c38()
+{
+    c38_body(1);
+    VERIF_END();
+}
+// centre a symbolic rational n/d (d <= cden, not in lowest terms: the recurrence's x0 - g_j differences go through Rational arithmetic)
+extern "C" void harness_c38_ratcentre()
+{
+    c38_body(2);
     VERIF_END();
 }
